@@ -103,6 +103,10 @@ func (r *rng) randomState(id string) *Vec {
 	v.HasRI = r.chance(70)
 	v.MemSeed = uint(r.n(1 << 20))
 	v.DevSeed = uint(r.n(1 << 20))
+	// breakpoints are none of Step's business: an empty (non-nil) set, the current PC, the next address and a random one must change nothing
+	if r.chance(12) {
+		v.BP = []string{"-", fmt.Sprintf("%04x", v.W[12]), fmt.Sprintf("%04x,%04x", v.W[12]+1, r.w16())}[r.n(3)]
+	}
 	return v
 }
 
